@@ -12,7 +12,9 @@ from ..core import driver
 H5OPTS = [None, {"compression": "gzip", "compression_opts": 1}, {"compression": "lzf"},
           {"compression": "gzip", "compression_opts": 9, "shuffle": False}, {"chunks": True, "compression": "gzip", "fletcher32": True},
           {"compression": None, "shuffle": False}]
-DTYPES = [None, {"count": "int64"}, {"count": "float64"}, {"count": "int32", "x": "int64"}, {"x": "float32", "y": "int16"}]
+DTYPES = [None, {"count": "int64"}, {"count": "float64"}, {"count": "int32", "x": "int64"}, {"x": "float32", "y": "int16"},
+          # the STORED dtype of the ID columns, as narrow as the table allows
+          {"bin1_id": "uint8", "bin2_id": "uint8"}, {"bin1_id": "int8", "bin2_id": "int8"}, {"bin1_id": "uint16", "bin2_id": "int16"}]
 
 
 def split(seq, sizes):
@@ -121,7 +123,7 @@ def cr_roundtrip(case, ctx):
     if case.get("scale", 1) != 1:
         extra["dtypes"] = {k: "float64" for k in cols}
     elif DTYPES[case["dt"]] is not None:
-        extra["dtypes"] = {k: v for k, v in DTYPES[case["dt"]].items() if k in cols}
+        extra["dtypes"] = {k: v for k, v in DTYPES[case["dt"]].items() if k in cols or k in ("bin1_id", "bin2_id")}
     if H5OPTS[case["h5"]] is not None:
         extra["h5opts"] = H5OPTS[case["h5"]]
     if case["assembly_given"]:
